@@ -117,6 +117,7 @@ def apply_variant(repo, v, dest):
 def run_one(args):
     repo, v, pid = args
     sys.setrecursionlimit(10000)
+    os.environ["PYSCSI_SA_TIME_LIMIT"] = "600"          # a variant is decided at the quick tier, within the quick tier's budget
     base = tempfile.mkdtemp(prefix="pyscsi_sa_var_")
     t0 = time.time()
     try:
